@@ -3,7 +3,7 @@ P21 = "Claripy.Props.C21."
 P22 = "Claripy.Props.C22."
 V = "Claripy.VSA."
 THEOREMS_C21 = [P21 + n for n in ("C21_add_sound", "C21_add_closed", "C21_sub_sound", "C21_sub_closed", "C21_neg_sound",
-                                  "C21_not_sound", "C21_zext_sound", "C21_ucmp_sound", "C21_scmp_sound", "C21_cast_low_sound", "C21_extract_sound", "C21_sext_sound", "C21_udiv_sound", "C21_lshr_sound", "C21_shl_sound", "C21_or_sound", "C21_warren_bounds", "C21_and_sound", "C21_xor_sound", "C21_concat_sound", "C21_ashr_sound", "C21_eq_sound", "eq_unaligned_unsound", "C21_mul_aligned", "C21_mul_closed",
+                                  "C21_not_sound", "C21_zext_sound", "C21_ucmp_sound", "C21_scmp_sound", "C21_cast_low_sound", "C21_extract_sound", "C21_sext_sound", "C21_udiv_sound", "C21_lshr_sound", "C21_shl_sound", "C21_or_sound", "C21_warren_bounds", "C21_and_sound", "C21_xor_sound", "C21_concat_sound", "C21_ashr_sound", "C21_eq_sound", "eq_unaligned_unsound", "C21_mul_aligned", "C21_mul_closed", "C21_mod_sound",
                                   "sdiv_unsound", "mul_unaligned_unsound")] + \
                [V + n for n in ("ssplit_spec", "ssplit_wrap", "not_sound", "zext_sound", "ucmp_sound", "cmpWith_sound",
                                 "unsignedBounds_spec", "not_piece_mem", "widen_bits_mem",
@@ -17,7 +17,8 @@ THEOREMS_C21 = [P21 + n for n in ("C21_add_sound", "C21_add_closed", "C21_sub_so
                                 "minOr_le", "le_maxOr", "minOrLoop_le", "maxOrLoop_ge", "or_core", "orPiece_spec", "or_sound", "and_sound", "xor_sound", "andTry_spec", "psplit_spec", "psplit_eq", "ssplit_halves",
                                 "concat_sound", "zeroExtend_bounds", "pj_low", "lshiftK_multiples",
                                 "ashr_sound", "rshiftArithK_sound", "ashrPiece_spec", "ashr_roundTo", "rshiftArithK_succ", "unionLoop_sup",
-                                "mul_sound", "mulPair_sound", "umul_piece", "smul_piece", "prod_interval", "finInterval", "psplit_aligned", "mul_eq", "mulOuter_mem")]
+                                "mul_sound", "mulPair_sound", "umul_piece", "smul_piece", "prod_interval", "finInterval", "psplit_aligned", "mul_eq", "mulOuter_mem",
+                                "mod_sound", "modPair_sound", "udivPiece_spec", "mod_eq")]
 TESTS_C21 = [P21 + "test_add_example"]
 THEOREMS_C22 = [P22 + n for n in ("C22_top_mem", "C22_new_mem", "C22_pseudo_join_sup", "C22_lub_sup", "C22_union_sup",
                                   "C22_members_exact", "C22_cardinality_exact", "C22_solution_exact", "C22_eval_exact", "C22_min_max_bound", "C22_min_exact", "C22_max_exact_aligned", "C22_signed_min_max_bound",
